@@ -357,18 +357,27 @@ def check(model, rep, tier):
   if isinstance(used, ast.Call) and isinstance(used.func, ast.Name):
     # a helper nested in to_ast: its result with the parameter bound to the field
     lof = [f for f in core._nested_defs(to_ast.node) if f.name == used.func.id]
-    if lof and len(used.args) == 1 and core.norm(used.args[0]) == coll:
+    outer = to_ast
+    if not lof and used.func.id in to_ast.module.functions:
+      lof = [to_ast.module.functions[used.func.id].node]     # a module-level helper
+      outer = None
+    if lof and len(used.args) == 1 and not used.keywords and \
+        core.norm(used.args[0]) == coll and len(lof[0].args.args) == 1:
       lf = lof[0]
       ret = [r for r in ast.walk(lf) if isinstance(r, ast.Return)]
       pname = lf.args.args[0].arg
-      if len(ret) == 1:
+      if len(ret) == 1 and lf.body[-1] is ret[0]:
         ds = tpl.rdefs(lf).reaching(ret[0].value, pname)
         facts['definitions_of_%s_at_return' % pname] = [
             d[0] if isinstance(d, tuple) else core.norm(d)[:40] for d in (ds or [])]
+        stores_p = any(isinstance(x, ast.Name) and x.id == pname and
+                       isinstance(x.ctx, (ast.Store, ast.Del)) for x in ast.walk(lf))
         if ds is not None and len(ds) == 1 and isinstance(ds[0], tuple) and \
-            ds[0][0] == 'param' and len([x for x in ast.walk(lf) if isinstance(
-                x, ast.stmt) and x is not lf]) == 1:
-          fexpr = ret[0].value
+            ds[0][0] == 'param' and not stores_p:
+          hfi = core.FuncInfo(to_ast.module, lf, outer=outer) if outer is not None \
+              else to_ast.module.functions[used.func.id]
+          # locals of the helper that merely name a sub-expression are resolved
+          fexpr = tpl.expand(hfi, ret[0].value, ret[0])
           coll = pname
   elif used is not None:
     fexpr = tpl.expand(to_ast, used, s.call)
